@@ -14,6 +14,7 @@ CONSTANTS ModeSet,    \* subset of Modes
           MaxLen,     \* every stream has 1..MaxLen documents
           KindSet,    \* subset of Kinds
           PolSet,     \* set of policy records
+          CopyRhs,    \* BOOLEAN: FALSE = the design as pinned (RHS data by reference), TRUE = repaired
           EmitCases   \* BOOLEAN
 
 VARIABLE st
@@ -27,7 +28,7 @@ FilesOf(lens) == [f \in 1..Len(lens) |-> [p \in 1..lens[f] |-> SumTo(lens, f - 1
 
 Init == \E mode \in ModeSet, pol \in PolSet, lens \in LensSet :
           \E kinds \in [1..SumTo(lens, Len(lens)) -> KindSet] :
-            st = MInit(mode, pol, FilesOf(lens), kinds)
+            st = MInit(mode, pol, FilesOf(lens), kinds, CopyRhs)
 
 Accept(e) == LET n == MStep(st, e) IN n.pc # "REJECT" /\ st' = n
 Idx == 1..(MaxLen + 1)
@@ -36,7 +37,7 @@ Load         == \E f \in 1..Len(st.files) : Accept(Ev("Load", f, 0, 0, ObsIds(st
 CondenseLhs  == \E i \in Idx : Accept(Ev("CondenseLhs", 0, i, 0, <<>>, st.pol))
 CondenseRhs  == \E j \in Idx : Accept(Ev("CondenseRhs", 0, 0, j, <<>>, st.pol))
 Across       == \E i \in Idx : Accept(Ev("Across", 0, i, i, <<>>, st.pol))
-AcrossAppend == \E i \in Idx : Accept(Ev("AcrossAppend", 0, i, 0, <<>>, st.pol))
+AcrossAppend == \E i \in Idx, j \in Idx : Accept(Ev("AcrossAppend", 0, i, j, <<>>, st.pol))
 Matrix       == \E i \in Idx, j \in Idx : Accept(Ev("Matrix", 0, i, j, <<>>, st.pol))
 Output       == Accept(Ev("Output", 0, 0, 0, <<>>, st.pol))
 
@@ -54,24 +55,28 @@ T_ReadBack     == ThReadBack(st)
 T_Policy       == ThPolicy(st)
 T_HeapAgrees   == ThHeapAgrees(st)
 T_RhsPristine  == ThRhsPristine(st)
+T_Terminates   == ThTerminates(st)
 
 \* the machine is deterministic and tight: of all candidate events exactly NextEvent is accepted,
 \* and a pairwise step that carries any other policy than the run's is refused
 Candidates ==
   {Ev("Load", f, 0, 0, ObsIds(st, f), st.pol) : f \in 1..Len(st.files)}
-  \cup {Ev(k, 0, i, j, <<>>, st.pol) : k \in {"CondenseLhs", "CondenseRhs", "Across", "AcrossAppend", "Matrix"}, i \in 0..(MaxLen + 1), j \in 0..(MaxLen + 1)}
+  \cup {Ev("CondenseLhs", 0, i, 0, <<>>, st.pol) : i \in 0..(MaxLen + 1)}
+  \cup {Ev("CondenseRhs", 0, 0, j, <<>>, st.pol) : j \in 0..(MaxLen + 1)}
+  \cup {Ev(k, 0, i, j, <<>>, st.pol) : k \in {"Across", "AcrossAppend", "Matrix"}, i \in 0..(MaxLen + 1), j \in 0..(MaxLen + 1)}
   \cup {Ev("Output", 0, 0, 0, <<>>, st.pol)}
 SameEvent(a, b) ==
   /\ a.kind = b.kind
   /\ a.kind = "Load" => a.f = b.f
   /\ a.kind \in {"CondenseLhs", "Across", "AcrossAppend", "Matrix"} => a.i = b.i
-  /\ a.kind \in {"CondenseRhs", "Across", "Matrix"} => a.j = b.j
+  /\ a.kind \in {"CondenseRhs", "Across", "AcrossAppend", "Matrix"} => a.j = b.j
 I_Deterministic ==
   st.pc # "DONE" =>
     /\ \A e \in Candidates : MStep(st, e).pc # "REJECT" => SameEvent(e, NextEvent(st))
     /\ \E e \in Candidates : MStep(st, e).pc # "REJECT"
-    /\ \A e \in Candidates : \A pol \in PolsAll \ {st.pol} :
-         e.kind \in {"CondenseLhs", "CondenseRhs", "Across", "Matrix"} => MStep(st, [e EXCEPT !.pol = pol]).pc = "REJECT"
+    /\ \A pol \in PolsAll \ {st.pol} :
+         NextEvent(st).kind \in {"CondenseLhs", "CondenseRhs", "Across", "Matrix"}
+           => MStep(st, [NextEvent(st) EXCEPT !.pol = pol]).pc = "REJECT"
 
 (* ---- action property: a pairwise step extends exactly one accumulator on its right ---- *)
 Changed == {p \in 1..Min(Len(st.lhs), Len(st'.lhs)) : st'.lhs[p] # st.lhs[p]}
